@@ -995,6 +995,7 @@ func c09Supervise(run *mon.Run, bin, label string, plan *c09plan, extraEnv ...st
 		wg.Add(1)
 		go func(sh int) {
 			defer wg.Done()
+			defer run.Protect("c09 worker")
 			from, to := sh, plan.total // shard sh runs the commands with index = sh mod 16
 			restarts := 0
 			for from < to {
@@ -1012,6 +1013,7 @@ func c09Supervise(run *mon.Run, bin, label string, plan *c09plan, extraEnv ...st
 				done := make(chan struct{})
 				hung := false
 				go func() {
+					defer run.Protect("c09 worker")
 					last, lastChange := int64(-1), time.Now()
 					for {
 						select {
